@@ -470,7 +470,7 @@ func (c06) RunUnit(raw core.Unit, tier string, seed int64) core.UnitResult {
 			continue
 		}
 		e2 := after[rng.IntN(len(after))]
-		f2 := simfs.Fault{Addr: e2.Addr(), Kind: simfs.KErr, Errno: int(simfs.ErrnosFor(e2.Op)[0]), Seq: e2.Seq}
+		f2 := simfs.Fault{Addr: e2.Addr(), Kind: simfs.KErr, Errno: int(simfs.ErrnoAt(e2.Op, e2.Seq)), Seq: e2.Seq}
 		if f2.Addr == f1.Addr {
 			continue
 		}
